@@ -3,7 +3,7 @@ CONSTANTS
   Keys = {1, 2}
   Handles = {1, 2, 3}
   Vals = {0, 1}
-  MaxOps = 7
+  MaxOps = 6
 INVARIANTS TypeOK
 PROPERTIES CommitOnly SnapshotStable ErrNoEffect
 CHECK_DEADLOCK FALSE
